@@ -364,7 +364,9 @@ class DeduplicateDecorator(AsyncDecorator):
             task = self.fn.asynq(*args, **kwargs)
 
             def callback(task):
-                self.tasks.pop(cache_key, None)
+                # dirty() may have let a newer task take this key: leave that one registered
+                if self.tasks.get(cache_key) is task:
+                    del self.tasks[cache_key]
 
             self.tasks[cache_key] = task
             task.on_computed.subscribe(callback)
